@@ -143,6 +143,32 @@ def run(ck, facts, tier):
     state.result_stores(ck, facts, "C10.RESULT-STORES")
     scc_links(ck, facts, "C10.SCC-LINKS")
     refinement_guard(ck, facts, "C10.REFINE-GUARD")
+
+    R = "C10.CLOCK-MONOTONE"
+    ck.rule(R, "K4 (who-may-write a field): the SLG forest's clock orders strands *across* queries - a strand left pending in a table "
+               "keeps its last_pursued_time, and ensure_root_answer only pursues strands stamped before the current stack entry - so "
+               "Forest.clock is only ever advanced (Forest::increment_clock -> TimeStamp::increment); no function assigns or resets it")
+    from kit import mutated_self_fields
+    n_w = 0
+    for key, fb_ in sorted(facts.bodies("chalk_engine").items()):
+        if "{" in key or fb_.thir is None:
+            continue
+        th_ = facts.thir(key)
+        assigned = [x for x in walk(th_) if x.get("k") in ("assign", "assignop") and peel(x.get("l")).get("k") == "field"
+                    and peel(x["l"]).get("n") == "clock" and "Forest" in str(peel(x["l"]).get("adt", ""))]
+        borrowed = "clock" in mutated_self_fields(th_, "Forest") and not assigned
+        fn_ = key.split("::")[-1]
+        if assigned:
+            n_w += 1
+            ck.violation(R, "Forest.clock:assigned-in:%s" % fn_, fb_.where(assigned[0].get("ln")), "the clock is set to a value instead of being "
+                         "advanced: time stamps of strands left pending by earlier queries are now in the future")
+        elif borrowed:
+            n_w += 1
+            if fn_ == "increment_clock" and has_call(th_, "TimeStamp::increment"):
+                ck.ok(R, "Forest.clock:advanced-in:increment_clock")
+            else:
+                ck.violation(R, "Forest.clock:mutated-in:%s" % fn_, fb_.where(), "Forest.clock is changed outside increment_clock")
+    ck.floor(R, "Forest.clock-writers", n_w, 1)
     from shared import fixedpoint
     fixedpoint.table(ck, facts, "C10.FIXED-POINT-TABLE", which=("stale",))
     cg = CallGraph(facts, ["chalk_solve", "chalk_engine", "chalk_recursive", "chalk_integration", "chalk"])
